@@ -388,7 +388,7 @@ def work_chain(bins, seed, idx, tmp):
 
 def run(ctx):
     quick = ctx.tier == "quick"
-    per = 45 if quick else 1800
+    per = 130 if quick else 2200
     allbad = []
     for r in core.pmap(work_states, [(ctx.bins, "%s/%d/s%d" % (ctx.prop, ctx.seed, i), per) for i in range(32)]):
         ctx.merge_counts(r["st"])
@@ -401,7 +401,7 @@ def run(ctx):
         ctx.evaluations += r["n"]
         ctx.count("clean_prerelease_tag_runs", r["n"])
         allbad += r["bad"]
-    nch = 72 if quick else 900
+    nch = 110 if quick else 1000
     for r in core.pmap(work_chain, [(ctx.bins, "%s/%d" % (ctx.prop, ctx.seed), i, ctx.tmp) for i in range(nch)]):
         ctx.merge_counts(r["st"])
         ctx.evaluations += r["st"]["chain_observations"]
